@@ -407,10 +407,14 @@ def rand_dispersion(r, n_poles=None, p_per_axis=0.35):
         def over_dt(v):
             return [x / dt for x in v] if isinstance(v, list) else v / dt
 
+        # Parameter ranges stay inside the coupled ADE/Yee stability limit of the grid Nyquist mode with a factor two to spare,
+        # sum_p (w_p dt)^2 (d_eps_p/eps_inf + 1 - S^2) <= 0.5 * 4 (1 - S^2) for S = 0.99, eps_inf >= 1 and two poles: media beyond
+        # it are accepted silently by the library and blow up within a few steps (known finding of C36), which would surface as
+        # non-finite fields in every other check that merely *uses* a dispersive medium (seen once: C10, seed 5, run 11)
         if r.uniform() < 0.6:
-            poles.append({"kind": "lorentz", "w0": over_dt(val(0.1, 0.8)), "gamma": over_dt(val(0.0, 0.2)), "deps": val(0.2, 3.0, allow_zero=True)})
+            poles.append({"kind": "lorentz", "w0": over_dt(val(0.03, 0.10)), "gamma": over_dt(val(0.0, 0.1)), "deps": val(0.2, 1.5, allow_zero=True)})
         else:
-            poles.append({"kind": "drude", "wp": over_dt(val(0.05, 0.2, allow_zero=True)), "gamma": over_dt(val(0.0, 0.2))})
+            poles.append({"kind": "drude", "wp": over_dt(val(0.03, 0.10, allow_zero=True)), "gamma": over_dt(val(0.0, 0.1))})
     return {"poles": poles}
 
 
